@@ -27,6 +27,17 @@ elab "rlc_hyp" : tactic => do
         return
     throwError "rlc_hyp: no hypothesis applies"
 
+/-- same-kind overwrite of a heap cell by a cell that is not a function cell -/
+theorem rel_heapUpd {P : Params} {ci : Nat → Nat} {c : Nat} {I : Int → Int → Prop} (a : Addr) (x : Cell)
+    (hx : ∀ k fr, x ≠ Cell.fn k fr) :
+    RelE (R P ci c I) (R P ci c I) (RM P) Eq (heapUpd a x) (heapUpd a x) := by
+  unfold heapUpd
+  refine RelE.bindEq (rel_heapGet' a) ?_
+  intro old
+  apply RelE.ite
+  · exact rel_heapSet a x hx
+  · exact RelE.unsupported _ (fun _ _ h => R.toRM h)
+
 syntax "rlc_prim" : tactic
 macro_rules | `(tactic| rlc_prim) => `(tactic| exact RelE.pure rfl)
 macro_rules | `(tactic| rlc_prim) => `(tactic| exact RelE.panic _ (fun _ _ h => R.toRM h))
@@ -47,6 +58,7 @@ macro_rules | `(tactic| rlc) => `(tactic|
   repeat (first
     | with_reducible rlc_prim
     | exact rel_heapSet _ _ (by intro k fr e; cases e)
+    | exact rel_heapUpd _ _ (by intro k fr e; cases e)
     | exact rel_alloc _ (by intro k fr e; cases e)
     | exact RelE.panic (B := fun _ _ => False) _ (fun _ _ h => R.toRM h)
     | exact RelE.unsupported (B := fun _ _ => False) _ (fun _ _ h => R.toRM h)
@@ -85,6 +97,8 @@ variable {P : Params} {ci : Nat → Nat} {c : Nat} {I : Int → Int → Prop}
 local notation "X" => R P ci c I
 local notation "EE" => RM P
 
+theorem rel_boxSet (a : Addr) (v : V) : RelE X X EE Eq (boxSet a v) (boxSet a v) := by unfold boxSet; rlc
+macro_rules | `(tactic| rlc_prim) => `(tactic| exact rel_boxSet _ _)
 theorem rel_arrElems (a : Addr) (off len : Nat) : RelE X X EE Eq (arrElems a off len) (arrElems a off len) := by
   unfold arrElems; rlc
 macro_rules | `(tactic| rlc_prim) => `(tactic| exact rel_arrElems _ _ _)
